@@ -190,5 +190,44 @@ PROPS['C11'] = {
               'repo\'s own encodings) but are not covered by a theorem in this check yet; CPU time itself is only measured',
 }
 
+PROPS['C19'] = {
+    'module': 'Yabgp.Props.C19',
+    'theorems': ['Yabgp.Rib.C19_refines', 'Yabgp.Rib.C19_refines_out', 'Yabgp.Rib.C19_history',
+                 'Yabgp.Rib.C19_version_ipv4_in', 'Yabgp.Rib.C19_version_ipv4_out',
+                 'Yabgp.Rib.C19_version_received', 'Yabgp.Rib.C19_version_sent', 'Yabgp.Rib.C19_version',
+                 'Yabgp.Rib.C19_history_all', 'Yabgp.Rib.C19_flush', 'Yabgp.Rib.C19_flush_history',
+                 'Yabgp.Rib.C19_version_exact', 'Yabgp.Rib.C19_version_exact_ipv4', 'Yabgp.Rib.C19_tree_covers'],
+    'genagree': [],
+    'suites': ['rib'],
+    'cannot': 'values are abstract ids (prefix strings, attribute dictionaries, rule keys are only compared with ==); the key '
+              'string of a flowspec/VPN/sr rule is modelled as the rule itself (injective rendering for field values '
+              'without a double quote); routes announced through MP_REACH (1,1) and received sr-policy routes are not '
+              'kept by the code; REST worker-thread races with the reactor thread',
+    'level_text': 'Lean 4 refinement theorems for ALL tables, messages and histories: the IPv4 Adj-RIB-In/Out denote the '
+                  'in-order application (withdrawals, then announcements) of the UPDATEs, every received/sent version '
+                  'counter equals the number of table changes (new route, changed attributes, removal of a present route) '
+                  'of its own dictionary and is moved by nothing else, init_rib empties the IPv4 tables; tied to /repo by a '
+                  'per-event differential correspondence over a real BGP protocol object (all sequences <= 5 ops over 3 '
+                  'prefixes, extended alphabet, random histories with drops) and an independent dictionary oracle.',
+}
+
+PROPS['C20'] = {
+    'module': 'Yabgp.Props.C20',
+    'theorems': ['Yabgp.C20_invariant', 'Yabgp.C20_gapfree', 'Yabgp.C20_restart_total', 'Yabgp.C20_recovery_next_number',
+                 'Yabgp.C20_event_one_line', 'Yabgp.C20_log_is_history', 'Yabgp.KF_C20_orig_torn_tail_refuses',
+                 'Yabgp.KF_C20_orig_empty_newest_reuses', 'Yabgp.KF_C20_orig_missing_newline_joins'],
+    'genagree': [],
+    'suites': ['msglog'],
+    'cannot': 'durability below "prefix of the last write"; a clock that steps backwards or whose integer part changes its digit '
+              'count (names are "%s.msg" % time.time(), ordered as text); OSError while reading the log; payloads json cannot '
+              'serialise (protocol.py passes none); record text abstracted to length/seq/type',
+    'level_text': 'Lean 4 invariant proved by induction over ALL histories of events, rotations, crashes at any byte offset of a '
+                  'write, and restarts, for every rotation threshold: the files on disk, read in order, hold exactly one '
+                  'well-formed line per reported event with consecutive sequence numbers (the log equals the history), a start '
+                  'never refuses and continues with the next number; tied to /repo by a per-operation differential '
+                  'correspondence over a real DefaultHandler on a scratch directory (every byte offset of every write in the '
+                  'base histories) and the Lean audit applied to the real directory.',
+}
+
 # properties not claimed yet, with the reason that goes into MANIFEST.not_applicable
 NOT_YET = {}
